@@ -57,7 +57,7 @@ class Profile:
         self.nK = 3
         self.nF = 8            # functor ids
         self.flavours = ["V", "I", "A", "TV", "TI", "TA", "AV", "TAV"]
-        self.specs = {"fn": 6, "mem": 2, "trk": 2, "trk2": 1, "bref": 1, "nest": 1, "fwd": 1, "ownT": 1, "ownK": 1}
+        self.specs = {"fn": 6, "mem": 2, "sc": 1, "trk": 2, "trk2": 1, "bref": 1, "nest": 1, "fwd": 1, "ownT": 1, "ownK": 1}
         self.body_prob = 0.3   # probability that a functor id has a body
         self.body_len = (1, 4)
         self.len = (10, 60)
@@ -116,6 +116,8 @@ class Gen:
         fid = self.r.below(self.p.nF)
         if k == "fn":
             return "fn:%d" % fid
+        if k == "sc":
+            return "sc:%d:T%d" % (fid % 8, self.pick(self.T, self.p.nT, True))
         if k in ("mem", "trk", "bref"):
             return "%s:%d:T%d" % (k, fid, self.pick(self.T, self.p.nT, True))
         if k == "trk2":
